@@ -26,3 +26,73 @@ func VerifH_C01_unpackName() {
 	}
 	verifrt.Assert(sc.Err() == nil, "decoded name is a valid wire name")
 }
+
+var vC01Types = []Type{TypeA, TypeAAAA, TypeNS, TypeMX, TypeSOA, TypeSRV, TypeTXT, TypeOPT}
+
+// VerifH_C01_unpackResource: a record header with a fixed owner/type/class/ttl followed by an ARBITRARY
+// (lying) RDLENGTH and arbitrary RDATA octets, cut off anywhere: the record decoders never panic, never
+// read outside the buffer, and on success leave the cursor inside the buffer.
+func VerifH_C01_unpackResource_S8() {
+	verifrt.Unwind(160)
+	typ := vC01Types[verifrt.Shard()]
+	nt := 8
+	if verifrt.Thorough() {
+		nt = 10
+	}
+	prefix := []byte{0, byte(typ >> 8), byte(typ), 0, 1, 0, 0, 0, 5}
+	tail := verifrt.Bytes("tail", nt) // RDLENGTH (2) + RDATA, possibly truncated
+	msg := append(append([]byte(nil), prefix...), tail...)
+	if len(tail) >= 1 {
+		verifrt.Assume(tail[0] == 0) // RDLENGTH < 256 (larger values only fail the length test earlier)
+	}
+	r, off, err := unpackResource(msg, 0)
+	if err != nil {
+		verifrt.Reach("rejected")
+		verifrt.Assert(r == nil, "no record on error")
+		return
+	}
+	verifrt.Reach("ok")
+	verifrt.Assert(r != nil && off > 10 && off <= len(msg), "cursor advanced and inside the buffer")
+	verifrt.Assert(r.Hdr().Type == typ, "record type as on the wire")
+	verifrt.Assert(off == 11+int(r.Hdr().Length), "exactly RDLENGTH octets of RDATA are consumed")
+}
+
+// VerifH_C01_truncatedHeader: every prefix of a record header / message header is rejected cleanly.
+func VerifH_C01_truncatedHeader() {
+	verifrt.Unwind(60)
+	full := []byte{1, 'a', 0, 0, 1, 0, 1, 0, 0, 0, 9, 0, 4, 1, 2, 3, 4}
+	k := verifrt.Choose("k", len(full))
+	_, _, err := unpackResource(full[:k], 0)
+	verifrt.Assert(err != nil, "a truncated record is rejected")
+	verifrt.Reach("rejected")
+	hdr := verifrt.Bytes("hdr", 11)
+	m := NewMsg()
+	verifrt.Assert(m.Unpack(hdr) != nil, "a message shorter than its header is rejected")
+}
+
+// VerifH_C01_UnpackMsg: a whole message: fixed ID/flags, arbitrary small section counts and an arbitrary
+// short body, cut off anywhere.
+func VerifH_C01_UnpackMsg() {
+	verifrt.Unwind(200)
+	nb := 6
+	if verifrt.Thorough() {
+		nb = 8
+	}
+	cnt := verifrt.BytesN("counts", 4)
+	for _, c := range cnt {
+		verifrt.Assume(c <= 2)
+	}
+	body := verifrt.Bytes("body", nb)
+	msg := []byte{0x12, 0x34, 0x01, 0x00, 0, cnt[0], 0, cnt[1], 0, cnt[2], 0, cnt[3]}
+	msg = append(msg, body...)
+	m, err := UnpackMsg(msg)
+	if err != nil {
+		verifrt.Reach("rejected")
+		verifrt.Assert(m == nil, "no message on error")
+		return
+	}
+	verifrt.Reach("ok")
+	verifrt.Assert(len(m.Questions) == int(cnt[0]) && len(m.Answers) == int(cnt[1]) && len(m.Authorities) == int(cnt[2]) && len(m.Additionals) == int(cnt[3]),
+		"an accepted message has exactly the announced number of entries")
+	verifrt.Assert(m.ID == 0x1234 && m.RecursionDesired, "header fields")
+}
